@@ -402,11 +402,24 @@ def run(rep: Report) -> None:
     used: List[Tuple[str, str, int]] = []
     init = os.path.join(SRC, "__init__.py")
     tree = ast.parse(open(init, encoding="utf-8").read())
+    wrappers: Dict[str, str] = {}     # a module function that forwards its own parameter as start=: name -> parameter
+    for fn_ in [x for x in tree.body if isinstance(x, ast.FunctionDef)]:
+        for n in ast.walk(fn_):
+            if isinstance(n, ast.Call) and isinstance(n.func, ast.Attribute) and n.func.attr == "parse" and ast.unparse(n.func.value) == "parser":
+                for k in n.keywords:
+                    if k.arg == "start" and isinstance(k.value, ast.Name) and k.value.id in [a.arg for a in fn_.args.args]:
+                        wrappers[fn_.name] = k.value.id
     for n in ast.walk(tree):
         if isinstance(n, ast.Call) and isinstance(n.func, ast.Attribute) and n.func.attr == "parse" and ast.unparse(n.func.value) == "parser":
             for k in n.keywords:
                 if k.arg == "start" and isinstance(k.value, ast.Constant):
                     used.append(("__init__.py", k.value.value, n.lineno))
+        if isinstance(n, ast.Call) and isinstance(n.func, ast.Name) and n.func.id in wrappers:
+            fn_ = next(x for x in tree.body if isinstance(x, ast.FunctionDef) and x.name == n.func.id)
+            pos = [a.arg for a in fn_.args.args].index(wrappers[n.func.id])
+            val = next((k.value for k in n.keywords if k.arg == wrappers[n.func.id]), n.args[pos] if pos < len(n.args) else None)
+            if isinstance(val, ast.Constant):
+                used.append(("__init__.py", val.value, n.lineno))
     if not used:
         raise AnalysisError("no parser.parse(..., start=...) call found in measured/__init__.py")
     for f, s, ln in used:
